@@ -626,6 +626,8 @@ type fdGen struct {
 	c       *Ctx
 	created []int // a pool of pairwise distinct creation times, handed out in random order
 	round   int
+	// this world is built around an unstructured custom resource (more non-string status fields)
+	customResource bool
 	uid     int
 	malform bool // this case belongs to the malformed stream (nil replicas, wrong-typed fields, no strategy …)
 }
@@ -736,7 +738,9 @@ func (g *fdGen) ufStr(s string) fdUF {
 	switch {
 	case g.p(12):
 		return fdUF{}
-	case g.malform && g.p(20):
+	case g.p(10) || (g.customResource && g.p(25)):
+		// an ordinary input: a custom resource whose CRD does not pin the type of status.updateRevision /
+		// currentRevision may carry a number, a bool or an object there (fdWrong)
 		return fdUF{State: "wrong"}
 	}
 	return fdUF{State: "val", V: s}
@@ -925,8 +929,18 @@ func (g *fdGen) world() fdIn {
 	if g.p(16) {
 		rk = fdOddRefs[g.rnd(len(fdOddRefs))]
 	}
+	// a StatefulSet-like custom resource the controllers only know as unstructured: a CRD kind (reached with the
+	// workload-type filter off) or a known group/kind under a version without a typed object
+	customResource := !in.Strategy.BlueGreen && g.p(7)
+	if customResource {
+		rk = []fdRefKind{{"foo.io/v1", "Bar"}, {"foo.io/v1", "Bar"}, {"apps.kruise.io/v1", "StatefulSet"}, {"apps/v2", "StatefulSet"}}[g.rnd(4)]
+	}
+	g.customResource = customResource
 	in.Ref = fdRef{APIVersion: rk.api, Kind: rk.kind, Name: "wl"}
 	in.C.Filter = !g.p(12)
+	if customResource && rk.kind == "Bar" {
+		in.C.Filter = false
+	}
 	if rk.kind == "deployment" {
 		// with the filter off the kind goes to the API as it is; the fake client files objects by the lower-cased
 		// plural and would answer with the typed Deployment, a real API server knows no kind "deployment"
@@ -981,7 +995,7 @@ func (g *fdGen) world() fdIn {
 	}
 	// an unstructured object under exactly the ref's GVK (reached for a version no typed object is registered under,
 	// or for any kind when the filter is off)
-	if g.p(35) {
+	if customResource || g.p(35) {
 		add("Unstructured")
 	}
 	// objects of other kinds under the same name: the finder must not pick them up
